@@ -1,0 +1,43 @@
+//go:build verif
+
+package l1infotreesync
+
+import (
+	"context"
+	"database/sql"
+
+	"github.com/agglayer/aggkit/sync"
+	aggkittypes "github.com/agglayer/aggkit/types"
+	"github.com/ethereum/go-ethereum/common"
+)
+
+// NewVerifL1InfoTreeSync returns the real facade around a real processor, without driver.
+func NewVerifL1InfoTreeSync(dbPath string) (*L1InfoTreeSync, error) {
+	p, err := newProcessor(dbPath)
+	if err != nil {
+		return nil, err
+	}
+	return &L1InfoTreeSync{processor: p}, nil
+}
+
+// VerifStore exposes ProcessBlock / Reorg / GetLastProcessedBlock of the processor.
+func (s *L1InfoTreeSync) VerifStore() VerifStoreIface { return s.processor }
+
+// VerifDB exposes the database handle.
+func (s *L1InfoTreeSync) VerifDB() *sql.DB { return s.processor.db }
+
+// VerifIsHalted reports the halted flag.
+func (s *L1InfoTreeSync) VerifIsHalted() bool { return s.processor.isHalted() }
+
+// VerifBuildAppender builds the real log appender map.
+func VerifBuildAppender(client aggkittypes.BaseEthereumClienter, globalExitRoot,
+	rollupManager common.Address) (sync.LogAppenderMap, error) {
+	return buildAppender(client, globalExitRoot, rollupManager, FlagAllowWrongContractsAddrs)
+}
+
+// VerifStoreIface is the write side of the store as the EVM driver sees it.
+type VerifStoreIface interface {
+	GetLastProcessedBlock(ctx context.Context) (uint64, error)
+	ProcessBlock(ctx context.Context, block sync.Block) error
+	Reorg(ctx context.Context, firstReorgedBlock uint64) error
+}
